@@ -42,7 +42,11 @@ func NewK8sCacheStore(gatewayClient gatewayclientset.Interface, syncPeriod time.
 }
 
 type objectStore struct {
-	sync.Mutex
+	// the write lock is held while the local data is synced to k8s, the read lock
+	// by Save/Delete/DeleteUpstream: a sync must not interleave with them, otherwise
+	// it writes back a condition that was deleted (or an older version of a condition
+	// that was saved) after the sync listed it
+	sync.RWMutex
 	id            int
 	shard         int
 	shardCount    int
@@ -64,6 +68,8 @@ func (s *objectStore) Save(cluster string, condition *proxyv1alpha1.RateLimitCon
 	}
 
 	klog.V(5).Infof("Save upstream %s condition %s to store %v", cluster, condition.Name, s.shard)
+	s.RLock()
+	defer s.RUnlock()
 	if s.syncPeriod == 0 {
 		var err error
 		condition, err = s.createOrUpdate(condition)
@@ -75,6 +81,8 @@ func (s *objectStore) Save(cluster string, condition *proxyv1alpha1.RateLimitCon
 }
 
 func (s *objectStore) Delete(cluster, name string) error {
+	s.RLock()
+	defer s.RUnlock()
 	err := retry.RetryOnConflict(retry.DefaultRetry, func() (err error) {
 		err = s.gatewayClient.ProxyV1alpha1().RateLimitConditions().Delete(context.Background(), name, v1.DeleteOptions{})
 		if err == nil || errors.IsNotFound(err) {
@@ -89,6 +97,8 @@ func (s *objectStore) Delete(cluster, name string) error {
 }
 
 func (s *objectStore) DeleteUpstream(cluster string) error {
+	s.RLock()
+	defer s.RUnlock()
 	itemsToDelete := s.localStore.ListUpstream(cluster)
 	for _, item := range itemsToDelete {
 		err := retry.RetryOnConflict(retry.DefaultRetry, func() (err error) {
